@@ -233,6 +233,89 @@ fn sniff_event(log: &mut Log, how: &str, data: &[u8]) {
     });
 }
 
+fn collect_fasta<R: std::io::Read>(src: R, limit: usize) -> (Vec<Value>, bool) {
+    let mut items = vec![];
+    let mut it = fasta::Reader::new(src).records();
+    loop {
+        if items.len() >= limit {
+            return (items, true);
+        }
+        match it.next() {
+            None => return (items, false),
+            Some(Ok(r)) => items.push(item_rec(r.id(), r.desc(), r.seq(), &[], r.check().is_ok())),
+            Some(Err(e)) => items.push(item_err(io_kind(&e))),
+        }
+    }
+}
+fn collect_fastq<R: std::io::Read>(src: R, limit: usize) -> (Vec<Value>, bool) {
+    let mut items = vec![];
+    let mut it = fastq::Reader::new(src).records();
+    loop {
+        if items.len() >= limit {
+            return (items, true);
+        }
+        match it.next() {
+            None => return (items, false),
+            Some(Ok(r)) => items.push(item_rec(r.id(), r.desc(), r.seq(), r.qual(), r.check().is_ok())),
+            Some(Err(e)) => items.push(item_err(fq_kind(&e))),
+        }
+    }
+}
+
+/// The sniffer on a source that is NOT at offset 0: a seekable source is (bytes, position).
+///   how = "seek"           seek to `off`, get_kind_seek (twice), then the selected reader continues from there
+///   how = "read_then_seek" reach `off` by consuming `off` bytes with read_exact, then as "seek"
+///   how = "get_kind"       seek to `off`, get_kind (chained reader), the selected reader over the chain
+/// result: kind, kind2 (second sniff), pos / pos2 (position of the source after the first / second sniff),
+/// items = what the selected reader yields afterwards.
+fn sniff_at_event(log: &mut Log, how: &str, data: &[u8], off: usize, lay: &Lay) -> Value {
+    let args = json!({"how": how, "b": bytes(data), "off": off,
+                      "lay": lay.lay, "wrap": lay.wrap, "crlf": lay.crlf, "cut": lay.cut});
+    log.call("sniff_at", args, || {
+        use std::io::{Read, Seek, SeekFrom};
+        let classify = |r: std::io::Result<fastx::Kind>| match r {
+            Ok(fastx::Kind::FASTA) => "fasta",
+            Ok(fastx::Kind::FASTQ) => "fastq",
+            Err(e) if e.kind() == std::io::ErrorKind::UnexpectedEof => "eof",
+            Err(e) if e.kind() == std::io::ErrorKind::InvalidData => "invalid",
+            Err(_) => "io",
+        };
+        let limit = data.len() + 3;
+        let mut src = SchedReader::new(data.to_vec(), vec![]);
+        if how == "read_then_seek" {
+            let mut sink = vec![0u8; off];
+            src.read_exact(&mut sink).unwrap();
+        } else {
+            src.seek(SeekFrom::Start(off as u64)).unwrap();
+        }
+        if how == "get_kind" {
+            let (items, capped, k) = match fastx::get_kind(src) {
+                Ok((chain, fastx::Kind::FASTA)) => {
+                    let (i, c) = collect_fasta(chain, limit);
+                    (i, c, "fasta")
+                }
+                Ok((chain, fastx::Kind::FASTQ)) => {
+                    let (i, c) = collect_fastq(chain, limit);
+                    (i, c, "fastq")
+                }
+                Err(e) => (vec![], false, classify(Err(e))),
+            };
+            return json!({"kind": k, "kind2": k, "pos": off, "pos2": off, "items": items,
+                          "capped": if capped {1} else {0}});
+        }
+        let k = classify(fastx::get_kind_seek(&mut src));
+        let pos = src.pos;
+        let k2 = classify(fastx::get_kind_seek(&mut src));
+        let pos2 = src.pos;
+        let (items, capped) = match k2 {
+            "fasta" => collect_fasta(src, limit),
+            "fastq" => collect_fastq(src, limit),
+            _ => (vec![], false),
+        };
+        json!({"kind": k, "kind2": k2, "pos": pos, "pos2": pos2, "items": items, "capped": if capped {1} else {0}})
+    })
+}
+
 // ------------------------------------------------------------ wire format built by the harness
 fn nl(crlf: bool) -> &'static [u8] {
     if crlf { b"\r\n" } else { b"\n" }
@@ -538,6 +621,10 @@ pub fn drive(log: &mut Log) {
             if n % 9 == 0 {
                 sniff_event(log, ["kind", "seek", "get_kind"][(n / 9) % 3], b);
             }
+            if n % 5 == 0 {
+                let off = (n / 5) % (b.len() + 1);
+                sniff_at_event(log, ["seek", "get_kind", "read_then_seek"][(n / 5) % 3], b, off, &NOLAY);
+            }
         }
         log.oblige("tok_exhaustive");
     }
@@ -769,6 +856,41 @@ pub fn drive(log: &mut Log) {
                 log.oblige("cut");
             }
         }
+        // the section of cfg.recs inside a container: the sniffer runs at a non-zero offset of a
+        // seekable source and the selected reader must continue exactly there
+        if nrec > 0 {
+            let wrap = if kind == "fastq" && !wrapped_fq { 0 } else { *rng.pick(&wraps) };
+            let crlf = rng.coin();
+            let section = wire(kind, &recs, wrap, crlf);
+            let other: &[u8] = if kind == "fasta" { b"@pre d\nACGT\n+\nIIII\n" } else { b">pre d\nACGT\nAC\n" };
+            let hows = ["seek", "get_kind", "read_then_seek"];
+            for v in 0..3usize {
+                // v = 0: a block of the other format in front; 1: the same block twice; 2: junk in front
+                let prefix: Vec<u8> = match v {
+                    0 => other.to_vec(),
+                    1 => section.clone(),
+                    _ => {
+                        let n = rng.range(1, 9) as usize;
+                        rng.seq(n, b"x\n >@+")
+                    }
+                };
+                let mut b = prefix.clone();
+                b.extend_from_slice(&section);
+                let lay = Lay { lay: 2, wrap: wrap as i64, crlf: crlf as i64, cut: -1 };
+                let how = hows[(v + i as usize) % 3];
+                let r = sniff_at_event(log, how, &b, prefix.len(), &lay);
+                note_items(log, &r);
+                log.oblige("sniff_at_nonzero_offset");
+                match how {
+                    "seek" => log.oblige("sniff_seek_at_offset"),
+                    "get_kind" => log.oblige("sniff_get_kind_at_offset"),
+                    _ => log.oblige("sniff_after_consuming"),
+                }
+                if v == 1 {
+                    log.oblige("sniff_second_block_same_format");
+                }
+            }
+        }
     }
 
     // ---------------- (b2) records longer than the default 8 KiB BufWriter, short-writing sinks
@@ -851,6 +973,25 @@ pub fn drive(log: &mut Log) {
         log.oblige("damaged");
     }
 
+    // ---------------- (d0) multi-byte Unicode white space as the first white space of a header
+    case += 1;
+    if log.mine(case) && log.begin("uniws", raw_cfg("arb")) {
+        for ws in ['\u{00A0}', '\u{0085}', '\u{2028}', '\u{3000}', '\u{1680}', '\u{2003}'] {
+            for (k, tpl) in [">id{}desc x\nACGT\nAC\n>b\nA\n", "@id{}desc x\nACGT\n+\nIIII\n", ">{}id\nAC\n", "@i{}{}d\nA\n+\n!\n"]
+                .iter()
+                .enumerate()
+            {
+                let text = tpl.replace("{}", &ws.to_string());
+                let b = text.as_bytes();
+                for p in ["fasta", "fastq", "either"] {
+                    let r = parse_event(log, p, if k % 2 == 0 { "iter" } else { "read" }, b, CAPS[k % CAPS.len()], &[], &NOLAY);
+                    note_items(log, &r);
+                }
+            }
+        }
+        log.oblige("header_unicode_whitespace");
+    }
+
     // ---------------- (d) arbitrary bytes: ASCII (exact) and non-ASCII / invalid UTF-8 (totality)
     let narb = log.opts.n(64, 600);
     for i in 0..narb {
@@ -904,6 +1045,8 @@ pub fn drive(log: &mut Log) {
                 note_items(log, &r);
             }
             sniff_event(log, ["kind", "seek", "get_kind"][rng.below(3) as usize], &b);
+            let off = rng.below(b.len() as u64 + 1) as usize;
+            sniff_at_event(log, ["seek", "get_kind", "read_then_seek"][rng.below(3) as usize], &b, off, &NOLAY);
         }
     }
 }
